@@ -7,7 +7,9 @@ import astwire
 import implobs
 from gens.programs import Opts, Gen
 
-THEOREMS = ['findLoops_never_raises', 'variables_never_raise', 'delta_graph_never_raises', 'choices_never_raise', 'loopfree_compute_never_raises', 'while_correction_never_raises', 'loop_correction_never_raises']
+THEOREMS = ['findLoops_never_raises', 'variables_never_raise', 'delta_graph_never_raises', 'choices_never_raise', 'loopfree_compute_never_raises', 'while_correction_never_raises', 'loop_correction_never_raises',
+            'fixpoint_loop_stops', 'fixpoint_fuel_irrelevant', 'fixpoint_never_diverges',
+            'supported_function_never_raises', 'supported_statement_never_raises']
 RULE = ('translation units accepted by pycparser, built from the mixed grammar (supported statements, unary/cast sugar, '
         'edge forms: labels, comma expressions, nested unary, casts of compound expressions, side effects in '
         'conditions, constant-only right-hand sides, typedefs, non-counted for loops; unsupported statements of every '
